@@ -325,20 +325,48 @@ const (
 
 // tryDecode runs the decoder under recover and returns whether it panicked and the bytes allocated.
 func tryDecode(t *Target, b []byte) (panicked bool, alloc uint64) {
-	before := allocated()
-	func() {
-		defer func() {
-			if recover() != nil {
-				panicked = true
-			}
+	once := func(in []byte) (p bool, a uint64) {
+		before := allocated()
+		func() {
+			defer func() {
+				if recover() != nil {
+					p = true
+				}
+			}()
+			t.Decode(in)
 		}()
-		t.Decode(b)
-	}()
-	after := allocated()
-	if after > before {
-		alloc = after - before
+		after := allocated()
+		if after > before {
+			a = after - before
+		}
+		return
+	}
+	keep := append([]byte(nil), b...)
+	panicked, alloc = once(b)
+	// the counter is process-wide: other goroutines of the harness (hang watchdog, the test framework) allocate too.
+	// A decoder that over-allocates does so every time; noise does not: judge the smallest of up to three runs.
+	for i := 0; i < 2 && alloc > allocBase+allocPerByte*uint64(len(keep)); i++ {
+		if _, a := once(append([]byte(nil), keep...)); a < alloc {
+			alloc = a
+		}
 	}
 	return
+}
+
+// leastAlloc re-runs f (up to twice more) while the measured allocation exceeds bound and returns the smallest
+// measurement (see tryDecode).
+func leastAlloc(first, bound uint64, f func()) uint64 {
+	for i := 0; i < 2 && first > bound; i++ {
+		before := allocated()
+		func() {
+			defer func() { recover() }()
+			f()
+		}()
+		if a := allocated() - before; a < first {
+			first = a
+		}
+	}
+	return first
 }
 
 // hostile byte patterns: large counts / lengths in every encoding the formats use.
@@ -579,6 +607,9 @@ var specField = pbt.Register(pbt.Spec[FieldCase]{
 		}()
 		alloc := allocated() - before
 		if bound := uint64(allocBase + allocPerByte*len(b)); alloc > bound {
+			alloc = leastAlloc(alloc, bound, func() { value.ReadValue(wio.NewDataInputX(append([]byte(nil), b...))) })
+		}
+		if bound := uint64(allocBase + allocPerByte*len(b)); alloc > bound {
 			return pbt.Fail("decoding %d bytes with %s field #%d set to %d allocated %d bytes (bound %d)", len(b), mk.Kind, k, c.Val, alloc, bound)
 		}
 		r := ref.NewR(b)
@@ -764,7 +795,8 @@ var sweepPrim = pbt.RegisterSweep(pbt.Sweep{Prop: "C04", Name: "primitive-short-
 		if !p {
 			return true, fmt.Errorf("%s: the read returned %x instead of reporting failure (buffer %x)", name, ret, buf)
 		}
-		if a := allocated() - before; a > allocBase+allocPerByte*uint64(len(buf)) {
+		bound := allocBase + allocPerByte*uint64(len(buf))
+		if a := leastAlloc(allocated()-before, bound, func() { f(wio.NewDataInputX(append([]byte(nil), buf...))) }); a > bound {
 			return true, fmt.Errorf("%s: allocated %d bytes for a %d-byte buffer", name, a, len(buf))
 		}
 		return true, nil
@@ -911,7 +943,8 @@ func TestKillerInputs(t *testing.T) {
 		b := gen.UnHex(hx)
 		before := allocated()
 		panics(func() { value.ReadValue(wio.NewDataInputX(b)) })
-		if a := allocated() - before; a > allocBase+allocPerByte*uint64(len(b)) {
+		bound := allocBase + allocPerByte*uint64(len(b))
+		if a := leastAlloc(allocated()-before, bound, func() { value.ReadValue(wio.NewDataInputX(b)) }); a > bound {
 			t.Fatalf("ReadValue(%s) allocated %d bytes", hx, a)
 		}
 	}
